@@ -246,6 +246,11 @@ func (p *Prog) stopClosedSet(seed []string, bodies []*ssa.Function) map[string]b
 					}
 				}
 			}
+			// a goroutine that blocks on the network ends only when its spawner closes the connection, and the spawner
+			// gets there only if its own waits observe stop (with the set known so far: no circular argument)
+			if okAll && len(p.netBlockingCalls(b)) > 0 {
+				okAll = p.spawnerClosesOnStop(b, S)
+			}
 			if okAll {
 				for _, c := range closes {
 					if !S[c] {
@@ -522,4 +527,100 @@ func cellStores(cell ssa.Value, depth int) ([]*ssa.Store, bool) {
 		}
 	}
 	return stores, okAll
+}
+
+// syncReach is reach() without following go statements: the functions that run on the goroutine of root.
+func (g *callGraph) syncReach(root *ssa.Function) map[*ssa.Function]bool {
+	seen := map[*ssa.Function]bool{}
+	var visit func(f *ssa.Function)
+	visit = func(f *ssa.Function) {
+		if f == nil || seen[f] {
+			return
+		}
+		seen[f] = true
+		eachInstr(f, func(in ssa.Instruction) {
+			if _, isGo := in.(*ssa.Go); isGo {
+				return
+			}
+			for _, c := range g.callees[in] {
+				visit(c)
+			}
+		})
+	}
+	visit(root)
+	return seen
+}
+
+var netBlockingNames = map[string]bool{
+	"iface:net.Conn.Read": true, "iface:net.Listener.Accept": true, "iface:net.PacketConn.ReadFrom": true,
+	"(*net.UDPConn).ReadFromUDP": true, "(*net.UDPConn).ReadFrom": true, "(*net.UDPConn).Read": true, "(*net.TCPConn).Read": true,
+	"io.ReadFull": true, "io.ReadAtLeast": true, "io.ReadAll": true, "io.Copy": true,
+	"(*bufio.Reader).Peek": true, "(*bufio.Reader).Read": true, "(*bufio.Reader).ReadByte": true, "(*bufio.Reader).Discard": true,
+	"(*crypto/tls.Conn).Handshake": true, "(*crypto/tls.Conn).HandshakeContext": true, "(*crypto/tls.Conn).Read": true,
+}
+
+// netBlockingCalls lists the calls executed on root's own goroutine that can block on the network.
+func (p *Prog) netBlockingCalls(root *ssa.Function) []ssa.Instruction {
+	var out []ssa.Instruction
+	for f := range p.CallGraph().syncReach(root) {
+		eachInstr(f, func(in ssa.Instruction) {
+			if _, isGo := in.(*ssa.Go); isGo {
+				return
+			}
+			if c := callOf(in); c != nil && netBlockingNames[calleeName(c)] {
+				out = append(out, in)
+			}
+		})
+	}
+	sort.Slice(out, func(i, j int) bool { return out[i].Pos() < out[j].Pos() })
+	return out
+}
+
+// spawnerClosesOnStop: the function that starts goroutine body b closes a connection/listener, and each of its own
+// blocking waits has a case on a channel in S.
+func (p *Prog) spawnerClosesOnStop(b *ssa.Function, S map[string]bool) bool {
+	e := b.Parent()
+	if e == nil {
+		return false
+	}
+	closes := false
+	eachInstr(e, func(in ssa.Instruction) {
+		c := callOf(in)
+		if c == nil {
+			return
+		}
+		if _, isGo := in.(*ssa.Go); isGo {
+			return
+		}
+		n := calleeName(c)
+		if strings.HasSuffix(n, ".Close") || strings.HasSuffix(n, ").Close") {
+			if strings.Contains(n, "net.") || strings.Contains(n, "dtls") || strings.Contains(n, "tls.") {
+				closes = true
+			}
+		}
+	})
+	if !closes {
+		return false
+	}
+	sels, recvs, _ := p.blockingOps(e)
+	if len(sels)+len(recvs) == 0 {
+		return false
+	}
+	for _, si := range sels {
+		has := false
+		for i, c := range si.chans {
+			if si.dirs[i] == types.RecvOnly && S[c] {
+				has = true
+			}
+		}
+		if !has {
+			return false
+		}
+	}
+	for _, in := range recvs {
+		if !S[p.chanIdent(in.(*ssa.UnOp).X)] {
+			return false
+		}
+	}
+	return true
 }
